@@ -20,6 +20,14 @@ from .interp import Interp, Frame, Outcome
 from .state import State, Unsupported, PyRaise, Obligation
 from .repoindex import find_loops
 
+class _Scale:
+    """solver budget multiplier, read from the environment at use (the runner retries undecided contracts with a larger budget)"""
+    def __mul__(self, other):
+        return other * float(os.environ.get('PYVC_TIMEOUT_SCALE', '1'))
+    __rmul__ = __mul__
+
+
+SCALE = _Scale()
 Z3_TIMEOUT_MS = int(os.environ.get('PYVC_Z3_TIMEOUT_MS', '10000'))
 CVC5_TIMEOUT_S = int(os.environ.get('PYVC_CVC5_TIMEOUT_S', '20'))
 
@@ -76,7 +84,9 @@ class Result:
                 'seconds': round(self.seconds, 4), 'path': self.path, 'detail': self.detail[:2000]}
 
 
-def run_cvc5(smt2, timeout_s=CVC5_TIMEOUT_S, want_model=False):
+def run_cvc5(smt2, timeout_s=None, want_model=False):
+    if timeout_s is None:
+        timeout_s = int(CVC5_TIMEOUT_S * SCALE)
     with tempfile.NamedTemporaryFile('w', suffix='.smt2', delete=False, dir=os.environ.get('PYVC_TMP', None)) as f:
         f.write('(set-logic ALL)\n' + smt2 + '\n(check-sat)\n' + ('(get-model)\n' if want_model else ''))
         path = f.name
@@ -240,7 +250,7 @@ def _check_valid(pc, formula, want_model=True, timeout_ms=None, second_backend=T
             keep += sym.length_axioms(fs)
             keep += sym.structural_axioms(fs + keep)
             s0 = z3.Solver()
-            s0.set('timeout', 5000)
+            s0.set('timeout', int(5000 * SCALE))
             s0.add(*fs)
             s0.add(*keep)
             if s0.check() == z3.unsat:
@@ -250,14 +260,14 @@ def _check_valid(pc, formula, want_model=True, timeout_ms=None, second_backend=T
             gf = _func_names(neg) | set(n for a in keep for n in _func_names(a))
             sliced = [f for f in pc if _func_names(f) <= gf]
             s1 = z3.Solver()
-            s1.set('timeout', 5000)
+            s1.set('timeout', int(5000 * SCALE))
             s1.add(*sliced)
             s1.add(neg)
             s1.add(*keep)
             if s1.check() == z3.unsat:
                 return 'proved', 'z3', time.time() - t0, None, s1
             # z3's sequence solver is unstable on identical input; cvc5 decides the small sliced query reliably
-            if second_backend and run_cvc5(s1.to_smt2().replace('(check-sat)', ''), 10) == 'unsat':
+            if second_backend and run_cvc5(s1.to_smt2().replace('(check-sat)', ''), int(10 * SCALE)) == 'unsat':
                 return 'proved', 'cvc5', time.time() - t0, None, s1
     except z3.Z3Exception:
         pass
@@ -271,10 +281,10 @@ def _check_valid(pc, formula, want_model=True, timeout_ms=None, second_backend=T
     # of sequence axioms at once) leaves `unknown`.
     try:
         sl = z3.Solver()
-        sl.set('timeout', 3000)
+        sl.set('timeout', int(3000 * SCALE))
         sl.add(*fs)
         pending = list(ax)
-        lazy_deadline = time.time() + 20
+        lazy_deadline = time.time() + 20 * SCALE
         for _round in range(40):
             if time.time() > lazy_deadline:
                 break
@@ -288,7 +298,7 @@ def _check_valid(pc, formula, want_model=True, timeout_ms=None, second_backend=T
                 # assertions in fresh solvers with other seeds
                 for seed in (7, 23, 101):
                     s2 = z3.Solver()
-                    s2.set('timeout', 3000)
+                    s2.set('timeout', int(3000 * SCALE))
                     s2.set('random_seed', seed)
                     s2.add(*sl.assertions())
                     rl = s2.check()
@@ -330,7 +340,7 @@ def _check_valid(pc, formula, want_model=True, timeout_ms=None, second_backend=T
                 ax0 = sym.instantiate_axioms(fs, rounds=depth) + sym.length_axioms(fs)
                 ax0 += sym.structural_axioms(fs + ax0)
                 s0 = z3.Solver()
-                s0.set('timeout', 4000)
+                s0.set('timeout', int(4000 * SCALE))
                 s0.add(*fs)
                 s0.add(*ax0)
                 if s0.check() == z3.unsat:
@@ -338,7 +348,7 @@ def _check_valid(pc, formula, want_model=True, timeout_ms=None, second_backend=T
             except z3.Z3Exception:
                 break
     s = z3.Solver()
-    s.set('timeout', timeout_ms or Z3_TIMEOUT_MS)
+    s.set('timeout', int((timeout_ms or Z3_TIMEOUT_MS) * SCALE))
     s.add(*fs)
     s.add(*ax)
     r = s.check()
@@ -526,8 +536,9 @@ class Contract:
                 # change of outcome structure (e.g. a function turned into a coroutine) -> checker error, not a pass
                 uncovered.append('%s path %s' % (o.kind, path_id))
             for cl in self.clauses():
-                if props is not None and not (cl.props & set(props)):
-                    continue
+                # a contract that serves the property (registry: one of its clauses is tagged with it) is checked in full: the
+                # clauses of one function stand or fall together, and a change that breaks the property is often first visible
+                # in a clause that was tagged for a neighbouring property
                 if not cl.applies(o):
                     continue
                 I.st = o.state
@@ -554,8 +565,6 @@ class Contract:
                     continue
                 done.add(id(ob))
                 obp = getattr(ob, 'props', None) or self.props
-                if props is not None and not (set(obp) & set(props)):
-                    continue
                 st, be, secs, model, solver = check_valid(ob.pc, ob.formula)
                 r = Result('%s/%s' % (self.name, ob.name), obp, st, be, secs,
                            detail=ob.note, path=path_id, contract=self)
